@@ -614,3 +614,53 @@ RGRAMMAR_ORDER = ['x_or_asterisk', 'component', 'operation', 'tilde_gt', 'logica
 for _n in RGRAMMAR_ORDER:
     GRAMMAR[_n] = RGRAMMAR[_n]
 GRAMMAR_ORDER = GRAMMAR_ORDER + RGRAMMAR_ORDER
+
+
+# ====================================================================================================================================
+# Range grammar, comparators as whole functions (primitive / partial / tilde / caret): what the function returns for the (operator,
+# Partial) it reads off the text is what the desugaring clauses say -- the conjunction of the clause grid of that form, with the two
+# known-finding clauses in their pinned form
+KNOWN_CLAUSES = ('primitive#LessThan:M', 'caret#0:M')
+
+
+def post_of(lines):
+    """(requires text, conjunction of `guard ==> post` of every clause of a grid)"""
+    req = [l for l in lines if l.lstrip().startswith('requires')][0].strip()[len('requires'):].strip().rstrip(',')
+    cl = []
+    for l in '\n'.join(lines).split('\n'):
+        m = _re0.match(r'^\s+(.*),\s*//\s*@(\S+)\s*$', l)
+        if m and m.group(2) not in KNOWN_CLAUSES:
+            cl.append('(' + m.group(1) + ')')
+    return req, '\n        && '.join(cl)
+
+
+def comparator_posts():
+    out = []
+    req, post = post_of(grid_partial('p'))
+    out.append('pub open spec fn partial_post(p: Partial, r: Option<BoundSet>) -> bool {\n        %s\n}' % post)
+    req, post = post_of(grid_caret('p'))
+    out.append('pub open spec fn caret_post(p: Partial, r: Option<BoundSet>) -> bool {\n        %s\n}' % post)
+    req, post = post_of(grid_tilde('p'))
+    out.append('pub open spec fn tilde_post(p: (Option<&str>, Partial), r: Option<BoundSet>) -> bool {\n        %s\n}' % post)
+    parts = []
+    for op in OPS:
+        req, post = post_of(grid_primitive(op, 'p'))
+        parts.append('(p.0 == Operation::%s ==> (\n        %s))' % (op, post))
+    out.append('pub open spec fn primitive_post(p: (Operation, Partial), r: Option<BoundSet>) -> bool {\n        %s\n}' % '\n        && '.join(parts))
+    return '\n'.join(out) + '\n'
+
+
+# whole comparator functions: output type, reference reader, how the closure's argument relates to what the reader returns
+COMPARATORS = {
+    'partial': dict(ty='Partial', reader='g_partial(i@)', pat='(ps, r)', arg_is='partial_is(x, ps)', pre='wf_partial(x)', post='partial_post(x, o)', entry=''),
+    'caret': dict(ty='Partial', reader='g_caret_ast(i@)', pat='(ps, r)', arg_is='partial_is(x, ps)', pre='wf_partial(x)', post='caret_post(x, o)', entry=_lits('^')),
+    'tilde': dict(ty="(Option<&'s str>, Partial)", reader='g_tilde_ast(i@)', pat='((gt, ps), r)', arg_is='(x.0 is Some) == gt && partial_is(x.1, ps)', pre='wf_partial(x.1)', post='tilde_post(x, o)', entry=''),
+    'primitive': dict(ty='(Operation, Partial)', reader='g_primitive_ast(i@)', pat='((op, ps), r)', arg_is='x.0 == op && partial_is(x.1, ps)', pre='wf_partial(x.1)', post='primitive_post(x, o)', entry=''),
+}
+for _n, _d in COMPARATORS.items():
+    GRAMMAR[_n] = dict(
+        src='rng', O='Option<BoundSet>', comparator=True,
+        acc='%s matches Some(%s) && r == rest@ && exists|x: %s| #[trigger] %s(x, o) && %s && %s' % (_d['reader'], _d['pat'], _d['ty'].replace("&'s str", '&str'), _d['post'].split('(')[0], _d['arg_is'], _d['pre']),
+        rej='%s is None' % _d['reader'], rewrites=[], entry=_d['entry'])
+COMPARATOR_ORDER = ['partial', 'caret', 'tilde', 'primitive']
+GRAMMAR_ORDER = GRAMMAR_ORDER + COMPARATOR_ORDER
